@@ -904,7 +904,7 @@ impl Accept {
 //@insert after="loop {"
             let ghost pre = *self;
             let ghost pre_s = sockets@;
-//@insert after="self.avail.set_available(idx, true);"
+//@insert after_block_of="self.avail.set_available(idx, true);"
                     // the bit is set exactly when a handle answers to the index, and nothing else is touched  [C03,C08]
                     assert(pre.has_idx(idx) ==> self.avail@ == pre.avail@.insert(idx));
                     assert(!pre.has_idx(idx) ==> self.avail@ == pre.avail@);
